@@ -7,6 +7,7 @@ import (
 	"fmt"
 	"html"
 	"html/template"
+	"math"
 	"reflect"
 	"runtime"
 	"runtime/debug"
@@ -200,6 +201,13 @@ func materialize(a absVal, env *runEnv) interface{} {
 		}
 		return xs
 	case "map":
+		if a.Go == "nanmap" {
+			m := map[float64]string{}
+			for _, v := range a.maps() {
+				m[math.NaN()] = decodeChars(v.S)
+			}
+			return m
+		}
 		if a.Go == "htmlmap" {
 			m := map[string]template.HTML{}
 			for k, v := range a.maps() {
